@@ -15,6 +15,9 @@ CATALOG = {
                     "extract": "ring_programs", "replay": "run_ring_program",
                     "limit": {"quick": 5000, "thorough": 400000}}],
     },
+    "C09": {
+        "drivers": [("shape", {"quick": 800, "thorough": 30000}, {})],
+    },
     "C14": {
         "drivers": [("options", {"quick": 400, "thorough": 20000}, {})],
         "models": [{"module": "MC_Options", "cfg": {"quick": "MC_Options_quick", "thorough": "MC_Options_thorough"},
